@@ -56,6 +56,9 @@ func main() {
 		}
 		fmt.Printf("recorded violation:\n%s\nre-deriving by running the check of %s on the current tree ...\n", b, v.Property)
 		os.Exit(props.RunProperty(v.Property, "quick", 0))
+	case "paramnames":
+		// voicheck paramnames : regenerate props/paramnames.json from the current tree (maintenance)
+		props.DumpParamNames(os.Args[2])
 	case "mod":
 		props.DumpMod(os.Args[2], os.Args[3])
 	case "dt":
